@@ -9,3 +9,17 @@ Theorem C17_mem_totals_exact : forall n ops sh, (0 < n)%nat -> sh ∈ run_mem n 
   numS sh = wrap64 (sm_total_seeders (swarms sh)) /\ numL sh = wrap64 (sm_total_leechers (swarms sh)).
 Proof. exact mem_totals_exact. Qed.
 Print Assumptions C17_mem_totals_exact.
+
+(* Redis store: after every sequential history the exported totals are (registered seeder
+   keys, seeder memberships stored, leecher memberships stored) - and never negative *)
+From Chihaya Require Import Proofs.RedisP.
+Theorem C17_redis_totals_exact : forall ops, Forall sop_wf ops ->
+  red_prom (run_redis ops) =
+  (red_registered (run_redis ops), sm_total_seeders (run_spec ops), sm_total_leechers (run_spec ops)).
+Proof. exact redis_totals_exact. Qed.
+Print Assumptions C17_redis_totals_exact.
+
+Theorem C17_redis_totals_nonnegative : forall ops, Forall sop_wf ops ->
+  let '(i, s, l) := red_prom (run_redis ops) in 0 <= i /\ 0 <= s /\ 0 <= l.
+Proof. exact redis_totals_nonnegative. Qed.
+Print Assumptions C17_redis_totals_nonnegative.
